@@ -259,7 +259,8 @@ def weights(ctx: Ctx):
     for p in flow.paths(fn.node):
         for s in p.stores:
             stores.setdefault(flow.dump(s.target), set()).add(flow.dump(s.value) if s.value is not None else "")
-    tw = stores.get("$elem(graph.edges(data=True))[2][TIME_WEIGHT]", set())
+    tw = stores.get("$elem(graph.edges(data=True))[2][TIME_WEIGHT]", set()) | stores.get("$elem(graph.edges(data=True))[2]['travel_time']", set())
+    tw = {t.replace("SECONDS_IN_HOUR", "3600") for t in tw}  # the package's own name for the literal
     want = "$elem(graph.edges(data=True))[2]['length'] / 1000 / $elem(graph.edges(data=True))[2]['speed_kmph'] * 3600"
     ctx.check(want in tw, "D1", "DU.weight", "the travel-time weight is length[km] / speed[km/h] x 3600 of the edge itself", fn,
               why_bad=f"TIME_WEIGHT = {sorted(tw)[:2]}", construct="OSMRoadNetwork.__init__:time-weight")
